@@ -35,6 +35,12 @@ def current : Policy :=
     restoreFileErr := decodeErr Arc.Generated.C13.restoreFileErr
     backupKeepsPart := !Arc.Generated.C13.backupCleansPart
     restoreKeepsPart := !Arc.Generated.C13.restoreCleansPart
+    backupReadAttempts := Arc.Generated.C13.backupReadAttempts
+    backupRetryResets := Arc.Generated.C13.backupRetryResets
+    backupWriteAttempts := Arc.Generated.C13.backupWriteAttempts
+    restoreReadAttempts := Arc.Generated.C13.restoreReadAttempts
+    restoreRetryResets := Arc.Generated.C13.restoreRetryResets
+    restoreWriteAttempts := Arc.Generated.C13.restoreWriteAttempts
     ratioNum := Arc.Generated.C13.ratioNum
     ratioDen := Arc.Generated.C13.ratioDen
     ratioChecked := Arc.Generated.C13.ratioChecked
@@ -48,7 +54,10 @@ def failNowProg : List Instr :=
 /-- the policy of the tree the finding was made on. -/
 def asFound : Policy :=
   { backupReadErr := .skipCount, backupWriteErr := .abort, restoreFileErr := .continueSilently,
-    backupKeepsPart := false, restoreKeepsPart := true, ratioNum := 1, ratioDen := 10,
+    backupKeepsPart := false, restoreKeepsPart := true,
+    backupReadAttempts := 1, backupRetryResets := false, backupWriteAttempts := 1,
+    restoreReadAttempts := 1, restoreRetryResets := false, restoreWriteAttempts := 1,
+    ratioNum := 1, ratioDen := 10,
     ratioChecked := true, manifestSkipped := true, restoreProg := failNowProg }
 
 /-- repair A: `restoreDataFiles` returns the first per-file error. -/
@@ -61,5 +70,9 @@ def repairedCount : Policy := { asFound with restoreFileErr := .skipCount }
 the SQLite step assigns the same variable, the check comes after it. -/
 def maskedProg : List Instr :=
   [.step .data .assign, .step .sqlite .assign, .check, .step .config .failNow]
+
+/-- a known-bad read phase (seeded mutant C13-b2): one retry into the same, un-reset temp file. -/
+def retryNoReset : Policy :=
+  { repairedCount with backupReadAttempts := 2, backupRetryResets := false }
 
 end Arc.C13
